@@ -74,7 +74,7 @@ def C11_1(ctx, facts):
 
 
 def C11_2_3_4(ctx, facts):
-    f = facts.fn(PA)
+    f = facts.unit(facts.fn(PA), expand=True)
     ctx.touched(f)
     tpush = [c for c in f.calls() if c.matches(r"FuturesUnordered.*::push$")]
     pops = f.calls(VDQ + "::pop_front")
@@ -85,7 +85,8 @@ def C11_2_3_4(ctx, facts):
         ok = rr and all(r.kind == "call" and r.site.bb in {p.bb for p in pops} for r in rr)
         ctx.check(ok, "process_all|start-only-popped", "only candidates just popped from the queue are started (moved: at most once each)", "tasks.push receives %s" % sorted(map(repr, rr)), c.where())
     every_popped_started(ctx, facts)
-    other = [c for g in facts.fns.values() if g.nkey.startswith("happy_eyeballs") and g.key != f.key for c in g.calls() if c.matches(r"FuturesUnordered.*::push$")]
+    home = {f.nkey} | {norm(k) for k in f.inlined}
+    other = [c for g in facts.fns.values() if g.nkey.startswith("happy_eyeballs") and g.nkey not in home for c in g.calls() if c.matches(r"FuturesUnordered.*::push$")]
     ctx.check(not other, "tasks.push|only-in-process_all", "attempts are started only in process_all", "tasks.push also in %s" % [c.fn.nkey for c in other])
     # initial batch
     rng = [(b, s) for (b, i, s) in f.aggregates("Range") if (s["r"].get("adt") or "").endswith("ops::Range")]
@@ -94,7 +95,7 @@ def C11_2_3_4(ctx, facts):
     for (b, s) in rng:
         lo, hi = s["r"]["ops"]
         rr = f.roots(hi)
-        ok = const_of(lo) is not None and str(const_of(lo)).startswith("0") and any(r.kind == "call" and r.site.matches(r"Option.*::unwrap_or$") for r in rr) and \
+        ok = const_of(lo) is not None and str(const_of(lo)).startswith("0") and \
             any("initial_concurrency" in r.desc for r in rr if r.kind in ("arg", "upvar")) and any(r.kind == "call" and r.site.matches(r"VecDeque.*::len$") for r in rr)
         ctx.check(ok, "process_all|initial-batch-bound", "the bound is initial_concurrency.unwrap_or(queue.len())", "range roots %s" % sorted(map(repr, sig(rr))), f.where(b))
     # pacing
@@ -111,7 +112,7 @@ def C11_2_3_4(ctx, facts):
             ok, w = f.must_pass(p.bb, [c.bb], {aw["ready_edge"][1]} if aw["ready_edge"] else set())
             ctx.check(ok, "process_all|stagger-wait-before-start", "a further candidate is started only after the stagger wait (join_next_with_timeout) completed: never earlier",
                       "a candidate can be started without waiting for the stagger delay / a failure", c.where(), f.path_desc(w))
-    j = facts.fn(JT)
+    j = facts.unit(facts.fn(JT), expand=True)
     ctx.touched(j)
     to = [c for c in j.calls() if c.is_("tokio::time::timeout", "tokio::time::timeout::timeout")]
     jn = j.calls("happy_eyeballs::EyeballSet::join_next")
@@ -134,7 +135,7 @@ def C11_2_3_4(ctx, facts):
 def every_popped_started(ctx, facts):
     """Linear use of a popped candidate: from the Some edge of a queue.pop_front, every path that goes on (to another pop, to the drain
     loop, or to a failure return) starts the candidate (tasks.push of that value); it may only be dropped on a success return."""
-    f = facts.fn(PA)
+    f = facts.unit(facts.fn(PA), expand=True)
     tpush = [c for c in f.calls() if c.matches(r"FuturesUnordered.*::push$")]
     pops = f.calls(VDQ + "::pop_front")
     jn = c10.aw_of(f, "happy_eyeballs::EyeballSet::join_next")
